@@ -418,7 +418,8 @@ def _lookup_shape(ck, name, paths, found_returns, miss):
             if not (k[0] == "tuple" and k[1][0] == lp["elem"] and k[1][1] == ("var", "id") and probes[0]["args"][1] == F("locals")):
                 problems.append("probe key is not (scope id, name) on locals: %s" % fmt_term(k))
         hit_exits = [bp for bp in lp.get("exits", []) if bp["out"][0] == "ret"]
-        if not hit_exits:
+        short_circuit = lp.get("driver") in ("any", "find", "find_map", "position", "all")   # std searches stop at the first hit
+        if not hit_exits and not short_circuit:
             problems.append("a hit does not end the search")
     # every completed path must have performed the walk (no shortcut such as a memo table), and the
     # component may consult only its scope stack and its slot map
